@@ -10,6 +10,10 @@ RULE = ("Golomb inputs sweep [0,2^26) incl. 0, 2^19-1, 2^19 and every power-of-t
         "Murmur3 messages of every length 0..70 with random 16-byte keys, chunked updates at every split point; seeds and "
         "tweaks incl. 0, 2^32-1, values >= 2^32 and negative; element sets of 0..2000 scripts of length 0..600 incl. "
         "duplicates and crafted sets in which two elements collide in [0, N*M); bloom sizes 1..36000 bytes, 1..50 functions.")
+RULE += (" Reuse: SipHash_2_4 objects fed incrementally with hash()/digest()/copy() in any order, several CompactFilter / "
+         "CFilterMessage objects queried alternately and repeatedly with in-place edits of key / f / hashes / items, "
+         "BloomFilter add / filter_bytes / filterload interleaved with edits of tweak / function_count / bit_field, and "
+         "the module-level hash / Golomb functions called in sequences with different keys, seeds, ranges and p.")
 TRUSTED = ["hashlib (sha256) for the filter-header chain — hash256 is a universally quantified function in the theorem",
            "modelled, not verified: Script.raw_serialize (a CompactFilter is queried through an object whose "
            "raw_serialize() returns the given bytes); GenericMessage plumbing of filterload"]
@@ -682,7 +686,7 @@ def p_reuse_cf(filters, probes, altkeys, seed, nops):
         sets.append(list(items))
     msgs = [compactfilter.CFilterMessage(0, bytes(16) + key[::-1], compactfilter.encode_gcs(key, list(items)))
             for key, items in filters[:1]]
-    last = None
+    last, removed = None, False
     for step in range(nops):
         i = r.randrange(len(cfs))
         cf = cfs[i]
@@ -703,7 +707,7 @@ def p_reuse_cf(filters, probes, altkeys, seed, nops):
                         f"SipHash under the filter's current key and F is {'in' if want else 'not in'} its current set")
             if cf.compute_hash(raw) != (ref_siphash24(cf.key, raw) * cf.f) >> 64:
                 return f"{where}: compute_hash differs from (siphash(key, e) * F) >> 64 for the current key and F"
-            if i == 0 and cf.key == filters[0][0] and cf.f == len(filters[0][1]) * M and raw in sets[0] and not got:
+            if i == 0 and not removed and cf.key == filters[0][0] and cf.f == len(filters[0][1]) * M and raw in sets[0] and not got:
                 return f"{where}: false negative on the reused filter"
             if i == 0 and raw in sets[0] and RawScript(raw) not in msgs[0]:
                 return f"{where}: false negative on the reused CFilterMessage"
@@ -726,6 +730,7 @@ def p_reuse_cf(filters, probes, altkeys, seed, nops):
                 cf.items = sorted(list(cf.items) + [v])
             elif cf.hashes:
                 v = r.choice(sorted(cf.hashes))
+                removed = removed or i == 0
                 cf.hashes.discard(v)
                 cf.items = [x for x in cf.items if x != v]
     return None
@@ -1138,12 +1143,15 @@ def generate(ctx):
         yield ("prop", "reuse_bloom", [cfgs, items, r.getrandbits(30), ctx.n(60, 120)])
     for _ in range(ctx.n(10, 200)):
         datas = [ctx.rbytes(r.randrange(0, 40)) for _j in range(4)]
-        seq = [[r.choice(datas), r.choice([0, 1, 0xfba4c795, 2 * 0xfba4c795 & 0xffffffff, r.getrandbits(32), 2 ** 32, 2 ** 32 + 1])]
+        sd = r.getrandbits(32)
+        seq = [[r.choice(datas), r.choice([0, 1, 0xfba4c795, 2 * 0xfba4c795 & 0xffffffff, r.getrandbits(32), 2 ** 32, 2 ** 32 + 1,
+                                           sd, sd ^ (1 << 31), sd ^ (1 << 16), sd ^ 1, sd ^ (1 << 8)])]
                for _j in range(40)]
         ctx.label("reuse/murmur-call-order")
         yield ("prop", "murmur_order", [seq])
     for _ in range(ctx.n(10, 200)):
         xs = [r.randrange(0, 2 ** 22) for _j in range(4)]
         seq = [[r.choice(xs), r.choice([P, P, 0, 1, 5, 20])] for _j in range(30)]
+        seq = [[x % (1 << (p + 6)), p] for x, p in seq]     # unary part of at most 64 bits
         ctx.label("reuse/golomb-call-order")
         yield ("prop", "golomb_order", [seq])
